@@ -37,6 +37,9 @@ func init() {
 			"Oracle after every offer on the live node and on every restarted image, and again after the image imported the interrupted offer and after one further valid block: for all n<=head the canonical hash, header and body exist, number matches, parent(n)=canonical(n-1); " +
 			"every canonical block is byte-identical (header incl. votes/signature, body vs tx root) to a valid generated block (=> no invalid block canonical); the head state opens, has the header's three roots and yields the builder's account/validator values; " +
 			"every tx-lookup entry of a generated transaction points to a block canonical at its number, not above the head, holding that transaction. Non-wedging: image + interrupted offer again + one further valid block (child of the live head) must have the head hash, roots and state content of the live node (the reference that never crashed and received the same calls in the same order). " +
+			"Violation classes of crash images carry the ordering window of the crash point (@pre-head: everything of the block durable except the head switch; @head-switch: inside the head-header/canonical-hash/head-block writes; @post-head: head switched inside a reorg, follow-up lookup writes lost; @other). " +
+			"A panic escaping from InsertChain or from the restart is a violation named after the panicking function; the dead node is replaced by a restart on its durable image and the run goes on. " +
+			"Because WriteBlockWithState flushes its three tries in Go map order, crash points are numbered by logical writes (a run of state-trie batches = one write, plus one point inside it). " +
 			"Non-trivial = at least one fault fired (crash image, out-of-order/duplicate/batched/invalid/fork offer, reorg).",
 		Real: []string{"core.BlockChain (InsertChain, insertChain dispatch, insertSidechain, verifyAllSideChainBlocks, WriteBlockWithState/WithoutState, reorg, insert, loadLastState, repair, procFutureBlocks ticker on the fake clock)",
 			"core.HeaderChain, BlockValidator, StateProcessor, core/rawdb accessors, core/state + trie database over the simulated disk", "ucon.Server as verifier (VerifyHeaders/VerifySeal/VerifySideChainHeader, real VRF/BLS/secp256k1)",
@@ -491,6 +494,14 @@ func (cx *world) offerBlocks(o *offer) {
 		num, den = 4, 5
 	} else if o.sideStored || o.kind == "tick" {
 		num, den = 2, 3
+	}
+	if r.Tier == "thorough" { // enumerate more of the offers
+		num, den = 2, 3
+		if reorged {
+			num, den = 9, 10
+		} else if o.sideStored || o.kind == "tick" {
+			num, den = 4, 5
+		}
 	}
 	if !c.Chance("crash-enum", num, den) {
 		return
